@@ -40,6 +40,15 @@ def _match(at, tt, a0, fwd, bwd, abound=None, tbound=None):
             x0 = x[1:] if x.startswith("$") else x
             if not re.match(r"[A-Za-z_]", x0):
                 return False
+            if y.startswith("$") and y0 in fwd and (fwd[y0] != x0 or bwd.get(x0) != y0):
+                # a new binder for a name that was bound before (a second loop variable, a shadowing let) starts a new renaming
+                old = fwd.pop(y0)
+                if bwd.get(old) == y0:
+                    del bwd[old]
+                if x0 in bwd:
+                    stale = bwd.pop(x0)
+                    if fwd.get(stale) == x0:
+                        del fwd[stale]
             if fwd.setdefault(y0, x0) != x0 or bwd.setdefault(x0, y0) != y0:
                 return False
         elif x != y:
